@@ -4,7 +4,7 @@ from . import gen_c01, oracles
 
 class GraphProp:
     def __init__(self, pid, gen, owner, compare, reach, signature=None, fault_rate=0.12,
-                 simplify=None, variants=None, shard=None):
+                 simplify=None, variants=None, shard=None, followups=None):
         self.pid = pid
         self.gen = gen
         self.owner = owner
@@ -15,6 +15,7 @@ class GraphProp:
         self.simplify = simplify
         self.variants = variants
         self.shard = shard      # case -> str: the JIT-specialisation class a case belongs to
+        self.followups = followups
 
 
 def default_signature(case, violation):
@@ -36,7 +37,8 @@ def _register():
     try:
         from . import gen_c03
         GRAPH_PROPS["C03"] = GraphProp("C03", gen_c03.gen_case, gen_c03.owner, gen_c03.compare,
-                                       gen_c03.reach, signature=gen_c03.signature, fault_rate=0.08)
+                                       gen_c03.reach, signature=gen_c03.signature, fault_rate=0.08,
+                                       followups=gen_c03.followups)
     except ImportError:
         pass
     try:
